@@ -12,8 +12,8 @@ CLAIMED = {
 }
 CLAIMED["C05"] = ("model_checking",
   "bounded-exhaustive enumeration of byte strings, document corruptions and ill-typed calls on jawk::go with a no-panic/no-hang oracle (watchdog + breadcrumb)",
-  "Every byte string up to length 5 (thorough 6) over the 24 JSON-significant bytes (and up to 4/5 over 28 bytes incl. invalid UTF-8 under all four policies), every prefix and single-byte corruption of every universe document, structural families to 4 KiB, every pure function on every argument tuple over 24 atoms (ill-typed included), multi-byte characters at every byte offset 0..40 of string arguments and option texts, every strftime specifier byte and out-of-range instants are executed; a panic is caught in-process, an abort or hang kills the worker whose breadcrumb names the case.",
-  "Outside: nesting > 64, sizes > 10^4 (e.g. (sub [1] 0 9007199254740993) aborts in Vec::with_capacity - resource exhaustion by the property's own bound), exponents > 10^3, exec/trigger/now, self-referential macros.",
+  "Every byte string up to length 5 (thorough 6) over the 24 JSON-significant bytes (and up to 4/5 over 28 bytes incl. invalid UTF-8 under all four policies), every prefix and single-byte corruption of every universe document, structural families to 4 KiB, every pure function on every argument tuple over 25 atoms (ill-typed included, a count of 2^53 included), multi-byte characters at every byte offset 0..40 of string arguments and option texts, every strftime specifier byte and out-of-range instants are executed; a panic is caught in-process, an abort or hang kills the worker whose breadcrumb names the case.",
+  "Outside: nesting > 64, sizes > 10^4 ((range 2^53) is not executed), exponents > 10^3, exec/trigger/now, self-referential macros.",
   "DESIGN.md §5 C05")
 CLAIMED["C06"] = ("model_checking",
   "bounded-exhaustive noise injection (deviation-bounded, k<=1 quick / 2 thorough) into clean streams, differential against the clean run per --on-error policy",
